@@ -38,18 +38,30 @@ TEXT = {
         "technique": "Lean 4 proof (invariants over the principal loop, counting by injectivity) + differential correspondence",
     },
     "C13": {
-        "text": "Proved in Lean for the model of the tufv01/tufv02 mutators, for arbitrary (also invalid) arguments and arbitrary finite "
-                "edit sequences: the allow rule stays last and only there, no user rule gets the reserved prefix, every threshold is >= 1, "
-                "every rule's principals are distinct and defined (C13_struct_preserved, C13_run_struct); the full invariant incl. "
-                "'threshold <= number of distinct principals' for edits without repeated principal ids (C13_inv_preserved_partial, "
-                "C13_run_inv_partial) while C13_F10_witness proves the unrestricted statement false for the code as it stands (F10); refused "
-                "edits leave rules/principals unchanged (C13_refused_unchanged); root roles keep 1 <= threshold <= #principals with all "
-                "principals defined, global thresholds >= 1 and unique global rule names for arbitrary arguments (C13_root_inv_preserved, "
-                "C13_root_run_inv, C13_root_refused_unchanged). The model is compared with the real objects after every edit; JSON round "
-                "trip (real encoding/json) and v01->v02 migration are checked on the real objects' queries (rules, patterns, principals, "
-                "thresholds, global rules, propagation directives, controller/network, hooks, version).",
+        "text": "Proved in Lean for the model of the tufv01/tufv02 mutators, for arbitrary (also invalid) arguments - undefined or repeated "
+                "principal ids, any threshold, reserved names, nil / foreign principal types - and arbitrary finite edit sequences: the FULL "
+                "invariant is preserved by every rule-file mutator (C13_inv_preserved, C13_inv_preserved_full, C13_run_inv, "
+                "C13_run_inv_from_new): the allow rule stays last and only there, no user rule gets the reserved prefix, every threshold is "
+                ">= 1 and <= the number of DISTINCT principals the rule lists, every rule's principals are distinct and defined (the structural "
+                "part separately: C13_struct_preserved, C13_run_struct); refused edits leave rules/principals unchanged "
+                "(C13_refused_unchanged), no mutator panics on well-formed metadata (C13_no_panic); the old F10 witness "
+                "AddRule(r,[k,k],2) / UpdateRule(r,[k,k,k],3) with one defined principal is now refused with ErrCannotMeetThreshold and "
+                "leaves the metadata unchanged (C13_F10_repaired, C13_F10_repaired_update, kernel-evaluated, both schema versions); root "
+                "roles keep 1 <= threshold <= #principals with all principals defined, global thresholds >= 1 and unique global rule names "
+                "for arbitrary arguments (C13_root_inv_preserved, C13_root_run_inv, C13_root_refused_unchanged). The model is compared with "
+                "the real objects after every edit; JSON round trip (real encoding/json) and v01->v02 migration are checked on the real "
+                "objects' queries (rules, patterns, principals, thresholds, global rules, propagation directives, controller/network, hooks, "
+                "version).",
         "note": TB + "Round trip and migration are correspondence-checked, not Lean theorems. Name uniqueness across rule files is not covered. "
-                "Open findings on this tree: F10, F20, F21, F22.",
+                "Four defects were found by this check, reproduced on the real code and have since been FIXED in /repo: F10 (AddRule/UpdateRule "
+                "compared the threshold with the length of the id argument list, duplicates included; fixed by 43f8e67, both schema versions "
+                "now compare with set.NewSetFromItems(ids...).Len()), F20 (tufv01 root UnmarshalJSON dropped Version; f26f8ac), F21 (AddHook "
+                "refused after partially storing the hook; 2669d00), F22 (RemoveHook accepted an invalid stage and made the root "
+                "unserializable; c4e795c). The model now describes the repaired code, and the full invariant theorem holds without the "
+                "former 'no repeated principal ids in the argument list' (NoDupArgs) proviso; the theorem that refuted the full statement "
+                "(C13_F10_witness) is replaced by C13_F10_repaired. The four witnesses (corpus/C13/f10, f20, f21, f22) are replayed on "
+                "every run and must show the repaired behaviour; the driver attributes a case to F10/F20/F21/F22 only while that finding "
+                "is listed as open, so a return of any of these defects is reported as a VIOLATION.",
         "technique": "Lean 4 proof (invariant preservation per mutator, induction over edit sequences) + differential correspondence",
     },
     "C06": {
